@@ -146,6 +146,10 @@ def noBodyStatus (st : St α) : Bool :=
   | some (s, _) => !bodyAllowed s
   | none => false
 
+/-- the response has been fixed as `101 Switching Protocols` (the handler answered 101 before anything else
+    was committed: the connection is given away, no HTTP body follows) -/
+def Final101 (st : St α) : Prop := ∃ h, st.sent = some (101, h)
+
 /-- what the client of a real server obtains: nothing for a HEAD request or a body-less status, otherwise what
     it decodes according to Content-Encoding -/
 def delivered (head : Bool) (coding : Option Bytes) (st : St α) : Option (List α) :=
